@@ -1,6 +1,7 @@
 import Driver.Util
 import HeimdallModel.Spec.Config
 import HeimdallModel.Spec.ConfigLeaf
+import HeimdallModel.Spec.ConfigYaml
 -- @family config
 /-! Line-protocol family `config` (property C20): the configuration loader model on generated inputs.
 
@@ -9,6 +10,9 @@ import HeimdallModel.Spec.ConfigLeaf
 * op `spec`: `res` = does the leaf-wise rule accept the given result (`Config.specAccepts`), with the offending leaves
   and the places of the variables that give a nil value to a list position (known finding C20-nil-list-element);
 * op `leafload`: the loader model followed by the decoding model, what arrives at one typed leaf;
+* op `dialect`: for every text the reading of the model (`readText`; `"beyond"` outside the modelled fragment), what a
+  file saying the text at a leaf of the given type gives where the schema wants the given JSON type (`"rejected"` or the
+  decoded leaf) and what a variable carrying the text gives;
 * op `names`: `res` = the path each variable name addresses and the name the documented rule gives that path back.
 -/
 open Lean Heimdall.Config
@@ -75,7 +79,9 @@ def scalarOf : Json → Driver.E Scalar
     | .ok (.str r) => pure (.float r.toList)
     | _ => match j.getObjVal? "$collection" with
       | .ok _ => pure .coll
-      | _ => throw "unsupported scalar"
+      | _ => match j.getObjVal? "$time" with
+        | .ok _ => pure .time
+        | _ => throw "unsupported scalar"
 
 def scalarToJson : Scalar → Json
   | .str s => Json.str (String.ofList s)
@@ -84,6 +90,7 @@ def scalarToJson : Scalar → Json
   | .float r => Json.mkObj [("$float", Json.str (String.ofList r))]
   | .null => Json.null
   | .coll => Json.mkObj [("$collection", Json.bool true)]
+  | .time => Json.mkObj [("$time", Json.bool true)]
 
 /-- the scalar the merged tree hands to the decoder at a leaf -/
 def scalarAt (v : Val) : Driver.E Scalar :=
@@ -138,9 +145,45 @@ def runLeaf (c : Json) : Driver.E Json := do
       ("spelling", Json.str (String.ofList v.spelling))])])
   | _ => pure (Json.mkObj [("res", res)])
 
+def outcomeToJson : Outcome → Json
+  | .rejected => Json.str "rejected"
+  | .leaf l => leafToJson l
+
+/-- op `dialect` -/
+def runDialect (c : Json) : Driver.E Json := do
+  let t ← leafTypeOf (← Driver.str c "type")
+  let want ← (match (← Driver.str c "want") with
+    | "string" => pure JsonType.string
+    | "boolean" => pure JsonType.boolean
+    | "integer" => pure JsonType.integer
+    | w => throw s!"unknown JSON type {w}")
+  let texts ← Driver.arr c "texts"
+  let out ← texts.mapM fun j => do
+    let s ← j.getStr?
+    let reading := match readText s.toList with
+      | some y => scalarToJson y
+      | none => Json.str "beyond"
+    let file := match fileOutcomeOf t want s.toList with
+      | some o => outcomeToJson o
+      | none => Json.str "beyond"
+    let env := match envOutcomeOf t s.toList with
+      | some o => outcomeToJson o
+      | none => Json.str "beyond"
+    let isStr := match readText s.toList with
+      | some (.str _) => true
+      | _ => false
+    pure (Json.mkObj [("text", Json.str s), ("modelled", Json.bool (readText s.toList).isSome), ("reading", reading),
+      ("file", file), ("env", env), ("string", Json.bool isStr),
+      ("validator", match (validatorReads s.toList) with
+        | some y => Json.str (if schemaAccepts .string y then "string" else if schemaAccepts .boolean y then "boolean"
+                              else if schemaAccepts .integer y then "integer" else "other")
+        | none => Json.str "beyond")])
+  pure (Json.mkObj [("res", Driver.jarr out)])
+
 def run (c : Json) : Driver.E Json := do
   let op ← Driver.str c "op"
   if op == "leaf" then return (← runLeaf c)
+  if op == "dialect" then return (← runDialect c)
   let d := ofJson (Driver.fldD c "defaults" Json.null)
   let d := match d with | .null => Val.map .nil | v => v
   let f ← fileOf c
